@@ -366,3 +366,81 @@ func IsEmptySlice(v ssa.Value) bool {
 	}
 	return false
 }
+
+// IndexLoopDown recognises "for i := len(x)-1; i >= 0; i--" (every index of x, last to first) and returns x.
+func (e *Eng) IndexLoopDown(l *Loop) (coll string, ok bool) {
+	h := l.Header
+	if len(h.Instrs) == 0 {
+		return "", false
+	}
+	iff, isIf := h.Instrs[len(h.Instrs)-1].(*ssa.If)
+	if !isIf {
+		return "", false
+	}
+	c, isB := iff.Cond.(*ssa.BinOp)
+	if !isB {
+		return "", false
+	}
+	// i >= 0  or  i > -1
+	var phi *ssa.Phi
+	switch {
+	case c.Op == token.GEQ && isIntConst(c.Y, 0), c.Op == token.GTR && isIntConst(c.Y, -1):
+		phi, _ = c.X.(*ssa.Phi)
+	case c.Op == token.LEQ && isIntConst(c.X, 0), c.Op == token.LSS && isIntConst(c.X, -1):
+		phi, _ = c.Y.(*ssa.Phi)
+	}
+	if phi == nil || phi.Block() != h {
+		return "", false
+	}
+	// the loop must continue on the true branch
+	if len(h.Succs) != 2 || !l.Blocks[h.Succs[0].Index] {
+		return "", false
+	}
+	var init ssa.Value
+	step := false
+	for i, ed := range phi.Edges {
+		if l.Blocks[h.Preds[i].Index] {
+			bo, ok := ed.(*ssa.BinOp)
+			if !ok || bo.X != ssa.Value(phi) || !(bo.Op == token.SUB && isIntConst(bo.Y, 1) || bo.Op == token.ADD && isIntConst(bo.Y, -1)) {
+				return "", false
+			}
+			step = true
+		} else {
+			if init != nil && init != ed {
+				return "", false
+			}
+			init = ed
+		}
+	}
+	if !step || init == nil {
+		return "", false
+	}
+	// init = len(x) - 1
+	bo, isBo := init.(*ssa.BinOp)
+	if !isBo || bo.Op != token.SUB || !isIntConst(bo.Y, 1) {
+		return "", false
+	}
+	call, isC := bo.X.(*ssa.Call)
+	if !isC {
+		return "", false
+	}
+	if b, isBu := call.Call.Value.(*ssa.Builtin); !isBu || b.Name() != "len" {
+		return "", false
+	}
+	return e.X(l.Fn, call.Call.Args[0]), true
+}
+
+// CoversAll reports whether loop l visits every index of the collection rendered as coll (range, counting up from 0,
+// or counting down from len-1).
+func (e *Eng) CoversAll(l *Loop, coll string) bool {
+	if c, kind := e.RangeOver(l); c == coll && (kind == "index" || kind == "iter") {
+		return true
+	}
+	if c, start, ok := e.IndexLoopFrom(l); ok && c == coll && start == "0" {
+		return true
+	}
+	if c, ok := e.IndexLoopDown(l); ok && c == coll {
+		return true
+	}
+	return false
+}
